@@ -11,6 +11,7 @@ they observed into /verif/evidence/<id>.json and decides:
   exit 1  + "VIOLATION property=<id> replay=<path>" per distinct violation class
   exit 2  + "INCONCLUSIVE ..." infrastructure failure / monitor observed too little
 """
+import buildtags
 import json, os, re, shutil, subprocess, sys, time, hashlib
 
 VERIF = os.path.dirname(os.path.dirname(os.path.abspath(__file__)))
@@ -176,14 +177,17 @@ def run_go_test(out, unit, tier, seed, workdir, overlay):
         out.inconclusive.append("%s: watchdog (%ds) fired" % (name, watchdog))
         return
     if "[build failed]" in log or "[setup failed]" in log:
-        if unit["pkg"].rstrip("/").endswith("sm4") and "verifnoasm" not in unit.get("tags", ""):
-            # the declarations of copyAsm/needExpand (first) or also of sealAsm/openAsm (then) may differ from the ones the
-            # monitors call directly: rebuild with those adapters stubbed out; everything that goes through the public API still runs
-            add = "verifnohelpers" if "verifnohelpers" not in unit.get("tags", "") else "verifnoasm"
-            u2 = dict(unit, tags=(unit.get("tags", "") + "," + add).lstrip(","))
+        if unit["pkg"].rstrip("/").endswith("sm4") and unit.get("_chain", 0) + 1 < len(buildtags.TAG_CHAIN):
+            # an assembly routine the monitors call directly, or the package variable they flip, is not there in the expected
+            # form on this tree: rebuild with the next set of stubbed adapters (tools/buildtags.py); everything that goes
+            # through the public API still runs
+            idx = unit.get("_chain", 0) + 1
+            extra = buildtags.TAG_CHAIN[idx].split(",")[1:]
+            base = [t for t in unit.get("tags", "").split(",") if t and not t.startswith("verifno")]
+            u2 = dict(unit, tags=",".join(base + extra), _chain=idx)
             out.units.pop()
             out.notes["degraded_builds"] = [d for d in out.notes.get("degraded_builds", []) if not d.startswith(name + ":")]
-            out.notes.setdefault("degraded_builds", []).append("%s: rebuilt with tags %s (direct calls of %s unavailable on this tree)" % (name, u2["tags"], "copyAsm/needExpand" if add == "verifnohelpers" else "sealAsm/openAsm/copyAsm/needExpand"))
+            out.notes.setdefault("degraded_builds", []).append("%s: rebuilt with tags %s (%s)" % (name, u2["tags"], buildtags.what(u2["tags"])))
             return run_go_test(out, u2, tier, seed, workdir, overlay)
         out.inconclusive.append("%s: build failed, see %s" % (name, log_path))
         return
